@@ -189,6 +189,6 @@ def apply_effect_summary(prog, an, st, site, lf, callee, generics, args, arg_lvs
         if new_ok is None:
             new_ok = T.fresh(site, "arg%d:ok" % i)
         if new_err is None:
-            new_err = T.fresh(site, "arg%d:err" % i)
+            new_err = Term("errval", R, i)
         an.write(st, arg_lvs[i], Term("okelse", R, new_ok, new_err))
     return R
